@@ -37,10 +37,10 @@ open CB.Gen CB.Div
 syntax "bv_congr " num : tactic
 macro_rules | `(tactic| bv_congr $n) => do
   match n.getNat with
-  | 0 => `(tactic| first | with_reducible rfl | bv_decide)
+  | 0 => `(tactic| first | with_reducible rfl | bv_decide | (simp only [gen_defs] <;> (try simp only [BitVec.mul_comm]) <;> bv_decide) | bv_decide)
   | k + 1 =>
     let m := Lean.Syntax.mkNumLit (toString k)
-    `(tactic| first | with_reducible rfl | bv_decide | (with_reducible congr 1 <;> bv_congr $m) | bv_decide)
+    `(tactic| first | with_reducible rfl | bv_decide | (with_reducible congr 1 <;> bv_congr $m) | (simp only [gen_defs] <;> (try simp only [BitVec.mul_comm]) <;> bv_decide) | bv_decide)
 
 /-! ## transport of the model's word operations (64-bit, 32-bit, 128-bit) -/
 
